@@ -2,10 +2,10 @@
 the source."""
 from props import common as cm
 ID = 'C01'
-MODS = cm.MODS_CORE
+MODS = cm.MODS_CORE + ['contracts.c_math']
 FOCUS = 'range'
 FUNCS = cm.UTILS + cm.SCANNER + cm.BUFFER + cm.PARSER + cm.TEX2TXT + \
-    cm.HANDLERS
+    cm.HANDLERS + cm.MATH
 
 
 def SELECT(name):
